@@ -441,7 +441,12 @@ def run(ctx):
         tok = 'PIPE2' if fact_holds(facts, lambda a: mentions_enum(a, 'Lexer::PIPE2'), True) else \
             'PIPE' if fact_holds(facts, lambda a: mentions_enum(a, 'Lexer::PIPE'), True) else 'none'
         kinds.append((tok, inc))
-    order = sorted(range(len(pushes)), key=lambda i: (-pushes[i]['_b'], pushes[i]['_i']))
+    # execution order: a collection site comes before another if it can reach it and not the other way round
+    # (block numbers say nothing once a helper or lambda was inlined)
+    def before(i, j):
+        a, b = pushes[i], pushes[j]
+        return pe.ev_reaches(a, b) and not pe.ev_reaches(b, a)
+    order = sorted(range(len(pushes)), key=lambda i: -sum(1 for j in range(len(pushes)) if j != i and before(i, j)))
     seq = [kinds[i] for i in order]
     ctx.check('C12.P1', seq == [('none', []), ('PIPE', ['implicit']), ('PIPE2', ['order_only'])], pe.name, 'ins_:order-and-counters', pe.loc,
               'explicit inputs first (no counter), then `|` with ++implicit, then `||` with ++order_only: %s' % seq)
